@@ -23,7 +23,7 @@ var initOnce sync.Once
 // Init initialises the extensions once per process (restricted IO, load/save present) and silences logging.
 func Init() {
 	initOnce.Do(func() {
-		log.SetLogLevelQuiet(log.Fatal)
+		log.SetLogLevelQuiet(log.Critical)
 		log.Config.ForceColor = false
 		_ = extensions.Init(&extensions.Config{HasLoad: true, HasSave: true})
 	})
@@ -123,4 +123,90 @@ func (s *S) Globals() string {
 		return "ERROR: " + err.Error()
 	}
 	return b.String()
+}
+
+// Diff describes the first observable difference between two runs of the same inputs, or "".
+type DiffOptions struct {
+	CompareErrorText bool
+	SkipGlobals      bool
+	IgnoreGlobal     func(name string) bool // globals left out of the comparison
+}
+
+func filterGlobals(g string, ignore func(string) bool) string {
+	if ignore == nil {
+		return g
+	}
+	var out []string
+	for _, line := range strings.Split(g, "\n") {
+		name := line
+		if i := strings.IndexAny(line, "=("); i >= 0 {
+			name = strings.TrimPrefix(line[:i], "func ")
+		}
+		if !ignore(name) {
+			out = append(out, line)
+		}
+	}
+	return strings.Join(out, "\n")
+}
+
+// RunAll feeds the inputs to a fresh session.
+func RunAll(c Config, prelude, inputs []string) ([]Res, string, *S) {
+	s := New(c)
+	for _, p := range prelude {
+		if r := s.Run(p); r.Failed() {
+			panic(fmt.Sprintf("harness: prelude %q failed: %v", p, r.Errs))
+		}
+	}
+	out := make([]Res, len(inputs))
+	for i, in := range inputs {
+		out[i] = s.Run(in)
+	}
+	return out, s.Globals(), s
+}
+
+func firstLine(s string) string {
+	if i := strings.IndexByte(s, '\n'); i >= 0 {
+		return s[:i]
+	}
+	return s
+}
+
+// CompareRuns returns a description of the first difference between two result lists.
+func CompareRuns(inputs []string, a, b []Res, ga, gb string, nameA, nameB string, o DiffOptions) string {
+	for i := range inputs {
+		x, y := a[i], b[i]
+		if TimedOut(x) || TimedOut(y) {
+			return "" // a deadline fired: whatever follows depends on timing, the case is inconclusive
+		}
+		switch {
+		case x.Out != y.Out:
+			return fmt.Sprintf("input #%d %q prints\n  %q with %s but\n  %q with %s", i, inputs[i], x.Out, nameA, y.Out, nameB)
+		case x.Echo != y.Echo && !(x.Failed() && y.Failed()):
+			return fmt.Sprintf("input #%d %q evaluates to\n  %q with %s but\n  %q with %s", i, inputs[i], x.Echo, nameA, y.Echo, nameB)
+		case x.Panicked != y.Panicked:
+			return fmt.Sprintf("input #%d %q: panicked=%v (%v) with %s but panicked=%v (%v) with %s", i, inputs[i], x.Panicked, x.Errs, nameA, y.Panicked, y.Errs, nameB)
+		case (len(x.Errs) > 0) != (len(y.Errs) > 0):
+			return fmt.Sprintf("input #%d %q: errors %q with %s but %q with %s", i, inputs[i], x.Errs, nameA, y.Errs, nameB)
+		case x.Cont != y.Cont:
+			return fmt.Sprintf("input #%d %q: continuation %v with %s but %v with %s", i, inputs[i], x.Cont, nameA, y.Cont, nameB)
+		}
+		if o.CompareErrorText && len(x.Errs) > 0 && firstLine(x.Errs[0]) != firstLine(y.Errs[0]) {
+			return fmt.Sprintf("input #%d %q: error %q with %s but %q with %s", i, inputs[i], x.Errs[0], nameA, y.Errs[0], nameB)
+		}
+	}
+	ga, gb = filterGlobals(ga, o.IgnoreGlobal), filterGlobals(gb, o.IgnoreGlobal)
+	if !o.SkipGlobals && ga != gb {
+		return fmt.Sprintf("final globals differ:\n--- %s\n%s--- %s\n%s", nameA, ga, nameB, gb)
+	}
+	return ""
+}
+
+// TimedOut reports whether the input was stopped by the evaluation deadline.
+func TimedOut(r Res) bool {
+	for _, e := range r.Errs {
+		if strings.Contains(e, "context deadline exceeded") || strings.Contains(e, "context canceled") {
+			return true
+		}
+	}
+	return false
 }
